@@ -116,11 +116,19 @@ def theorems_in(path):
     return names
 
 
+def prop_modules(prop):
+    """Every Lean module stating theorems of this property: Properties/Cxx.lean, Properties/CxxFoo.lean …"""
+    mods = []
+    for path in sorted(glob.glob(os.path.join(LEAN, "MySensors", "Properties", f"{prop}*.lean"))):
+        mods.append("MySensors.Properties." + os.path.basename(path)[:-5])
+    return mods or [f"MySensors.Properties.{prop}"]
+
+
 def audit_axioms(prop, names):
     """#print axioms for every theorem; returns {name: [axioms] | None (missing)}."""
     if not names:
         return {}
-    src = f"import MySensors.Properties.{prop}\n" + "".join(f"#print axioms {n}\n" for n in names)
+    src = "".join(f"import {m}\n" for m in prop_modules(prop)) + "".join(f"#print axioms {n}\n" for n in names)
     tmpdir = tempfile.mkdtemp(prefix="verif-audit-")
     try:
         path = os.path.join(tmpdir, "Audit.lean")
@@ -224,10 +232,9 @@ def run_check(prop, module, tier, seed):
     ok, log = regenerate()
     if not ok:
         broken.append("translator tools/gen_tables.py failed: " + log[-300:])
-    targets = [f"MySensors.Properties.{prop}", "MySensors.Driver.Main"]
     with Lock():
-        ok_prop, log_prop = lake_build([targets[0]])
-        ok_drv, log_drv = lake_build([targets[1]])
+        ok_prop, log_prop = lake_build(prop_modules(prop))
+        ok_drv, log_drv = lake_build(["MySensors.Driver.Main"])
     if not ok_prop:
         errs = [l for l in log_prop.splitlines() if "error" in l][:6]
         broken.append(f"lake build MySensors.Properties.{prop} failed: " + " | ".join(errs))
@@ -258,7 +265,7 @@ def run_check(prop, module, tier, seed):
         broken.append("forbidden token: " + h)
     if tier == "thorough" and ok_prop and not os.environ.get("VERIF_SKIP_LEANCHECKER"):
         try:
-            rc, out, err = sh(["lake", "env", "leanchecker", f"MySensors.Properties.{prop}"],
+            rc, out, err = sh(["lake", "env", "leanchecker"] + prop_modules(prop),
                               cwd=LEAN, timeout=1800)
             if rc != 0:
                 broken.append("leanchecker rejected the compiled module: " + (out + err)[-300:])
